@@ -526,7 +526,11 @@ func (c *ExpressionCalculator) evaluateOther(
 			if err != nil {
 				return false, err
 			}
-			result = variants.VariantFromBoolean(!result.AsBoolean())
+			// The membership test yields Null for a Null operand: negate it with the operator, which accepts Null
+			result, err = c.variantOperations.Not(result)
+			if err != nil {
+				return false, err
+			}
 			stack.Push(result)
 			return true, nil
 		}
